@@ -5,12 +5,12 @@ From Verif Require Import Common.Base Common.Lx Json.Model Json.Lex Json.Spec Js
 
 (* MAIN THEOREM.  Every document of the RFC 8259 grammar (Json/Grammar.v: whitespace explicit at the six
    structural positions; all escape and number forms) is parsed to the end of the input without a parse
-   error (Err() is io.EOF), and re-joining the units with ':' after keys and ',' between units as State()
+   error (Err() is io.EOF, all containers closed: State() is ValueState), and re-joining the units with ':' after keys and ',' between units as State()
    indicates yields the document without insignificant whitespace.  No bound on size or nesting. *)
 Theorem json_accepts_valid :
   forall d, value d ->
     exists units final, drive (S (length d)) (json_init d) = Done units final /\
-                        err_kind final = 1 /\ rejoin units = strip_ws d.
+                        err_kind final = 1 /\ state final = Some S_Value /\ rejoin units = strip_ws d.
 Proof. exact json_accepts_valid_proof. Qed.
 Print Assumptions json_accepts_valid.
 
